@@ -38,7 +38,7 @@ THEOREM_CLASSES = {
     "C02_rt_is_modular_add": "main", "C02_rt_is_modular_sub": "main", "C02_rt_is_modular_mul": "main", "C02_rt_is_modular_unm": "main",
     "C02_rt_is_modular_bitwise": "main", "C02_rt_is_modular_idiv_mod": "main", "C02_rt_shift_helpers": "main",
     "C02_rt_is_modular_shifts_refuted": "refutation", "C02_rt_is_modular_shifts_partial": "main",
-    "C02_rt_context_independent_refuted": "refutation", "C02_rt_context_independent_partial": "main", "C02_rt_context_independent_if_cast": "main",
+    "C02_rt_context_independent_refuted": "refutation", "C02_rt_context_independent_partial": "main", "C02_rt_context_independent_if_cast": "main", "C02_const_count_shift_eq_helper_8bit": "corollary",
     "C02_comparisons_agree": "main", "C02_fold_agrees_partial_arith": "main", "C02_fold_exact_partial": "main",
     "C02_wrap_value_correct": "main", "C02_baked_literal": "main", "C02_conv_rejected_iff": "definitional",
 }
